@@ -2,7 +2,7 @@
    Model: C05/WriteLoop.v (Prepare/Write steps of any number of writers of one document, any schedule).
    Only property theorems here, each closed by [exact]. *)
 From Coq Require Import Permutation.
-From SG Require Import Base.Prelude C05.WriteLoop C05.WriteLoopProofs C05.WriteLoopTheorems C05.WriteLoopParents.
+From SG Require Import Base.Prelude C05.WriteLoop C05.WriteLoopProofs C05.WriteLoopTheorems C05.WriteLoopParents C05.WriteLoopTree C05.WriteLoopLinear.
 Open Scope N_scope.
 
 (* every acknowledged write is present in the document's revision history and has its own commit/sequence,
@@ -58,6 +58,88 @@ Theorem C05_put_one_child_per_parent : forall ac tab ops sched l1 c2 l3 q c1,
 Proof. exact put_one_child_per_parent. Qed.
 Print Assumptions C05_put_one_child_per_parent.
 
+(* LINEARIZABILITY of the revision tree.  For every schedule the stored tree is the concatenation, in commit
+   order, of the revisions each acknowledged write added ([c_added]); each acknowledged write's plan -- parent /
+   leaf check, conflict check, generation check, revisions to add -- was computed ([plan_of], in the writer-local
+   state of the successful attempt: attempt number, remembered parent) on exactly the tree the earlier commits
+   produced, and its sync function did not reject; hence replaying the acknowledged writes one after another in
+   commit order ([replay]) yields exactly the stored tree. *)
+Theorem C05_tree_linearizable : forall ac tab ops sched,
+  let s := run true false ac tab ops sched in
+  d_tree (st s) = flat_map c_added (commits s) /\
+  (forall l1 c l2, commits s = l1 ++ c :: l2 ->
+     plan_of ac tab (c_op c) (c_attempt c) (c_matchrev c) (flat_map c_added l1) = Some (PAdd (c_added c)) /\
+     w_reject (c_op c) = false /\ option_map r_id (rev_last (c_added c)) = Some (c_rev c)) /\
+  replay ac tab (commits s) = Some (d_tree (st s)).
+Proof. exact tree_linearizable. Qed.
+Print Assumptions C05_tree_linearizable.
+
+(* the commits are exactly the acknowledgements: each commit is the acknowledged write of the writer it names, one
+   of the given requests (C05_acked_present gives the converse: every acknowledgement has its commit) *)
+Theorem C05_commits_are_acks : forall ac tab ops sched c,
+  let s := run true false ac tab ops sched in
+  In c (commits s) ->
+  exists w, nth_error (ws s) (c_widx c) = Some w /\ w_op w = c_op c /\ w_out w = Some (OAck (c_rev c) (c_seq c)) /\ In (c_op c) ops.
+Proof. exact commits_are_acks. Qed.
+Print Assumptions C05_commits_are_acks.
+
+(* the stored tree is well-formed in either mode, whatever is pushed: revision ids unique, every parent present,
+   every revision's generation strictly above its parent's (RevTree.addRevision's generation check) *)
+Theorem C05_tree_wellformed : forall ac tab ops sched, wf (d_tree (st (run true false ac tab ops sched))).
+Proof. exact tree_wellformed. Qed.
+Print Assumptions C05_tree_wellformed.
+
+(* the history has as many revisions as the acknowledged writes added; as many as there are acknowledged writes
+   when they are all REST writes (one revision each) *)
+Theorem C05_tree_length : forall ac tab ops sched,
+  let s := run true false ac tab ops sched in
+  length (d_tree (st s)) = list_sum (map (fun c => length (c_added c)) (commits s)) /\
+  ((forall c, In c (commits s) -> c_put c = true) -> length (d_tree (st s)) = length (commits s)).
+Proof. exact tree_length. Qed.
+Print Assumptions C05_tree_length.
+
+(* CONFLICT-FREE MODE, all writers (REST writes and pushed revisions): every reachable stored tree has at most one
+   live leaf ... *)
+Theorem C05_conflict_free_one_live_leaf : forall tab ops sched,
+  (length (live_leaves (d_tree (st (run true false false tab ops sched)))) <= 1)%nat.
+Proof. exact conflict_free_one_live_leaf. Qed.
+Print Assumptions C05_conflict_free_one_live_leaf.
+
+(* ... and while it holds no tombstone it is a single chain -- in stored order: the first revision is the root,
+   each further revision's parent is the one before it, the last one is the only leaf -- whose length is the number
+   of revisions added by acknowledged writes (= the number of acknowledged writes for single-revision writes,
+   C05_tree_length) *)
+Theorem C05_conflict_free_single_chain : forall tab ops sched,
+  let s := run true false false tab ops sched in
+  all_live (d_tree (st s)) ->
+  single_chain (d_tree (st s)) /\
+  length (d_tree (st s)) = list_sum (map (fun c => length (c_added c)) (commits s)) /\
+  (d_tree (st s) <> [] -> exists r, leaves (d_tree (st s)) = [r] /\ rev_last (d_tree (st s)) = Some r).
+Proof. exact conflict_free_single_chain. Qed.
+Print Assumptions C05_conflict_free_single_chain.
+
+(* the hypothesis holds in particular when no request deletes *)
+Theorem C05_no_delete_all_live : forall tab ops sched,
+  (forall o, In o ops -> w_deleted o = false) -> all_live (d_tree (st (run true false false tab ops sched))).
+Proof. exact no_delete_all_live. Qed.
+Print Assumptions C05_no_delete_all_live.
+
+(* feed_final_rev: the stored current revision (what the feed announces together with the stored sequence) is the
+   winner of the stored tree, and the winner is its maximal leaf -- no leaf beats it in winningRevision's order
+   (live before deleted, then generation, then digest) and it beats every other leaf; the stored sequence and
+   current revision are those the LAST commit wrote (C05_acked_seq_increasing: its sequence is the greatest) *)
+Theorem C05_feed_final_rev : forall ac tab ops sched,
+  let s := run true false ac tab ops sched in
+  d_cur (st s) = option_map r_id (winner (d_tree (st s))) /\
+  (forall w, winner (d_tree (st s)) = Some w ->
+     In w (leaves (d_tree (st s))) /\
+     forall x, In x (leaves (d_tree (st s))) -> beats x w = false /\ (x <> w -> beats w x = true)) /\
+  (forall l c, commits s = l ++ [c] ->
+     d_seq (st s) = c_seq c /\ d_cur (st s) = c_cur c /\ exists w, winner (d_tree (st s)) = Some w /\ c_cur c = Some (r_id w)) /\
+  (commits s = [] -> d_tree (st s) = [] /\ d_seq (st s) = 0 /\ d_cur (st s) = None).
+Proof. exact feed_final_rev. Qed.
+Print Assumptions C05_feed_final_rev.
+
 (* Transfer to the code as it is.  The theorems above are stated for the model in which every write is
    compare-and-swap ([resurrect_unchecked = false]).  The storage layer writes a live revision over a tombstone
    WITHOUT the compare-and-swap (known finding, C05_Refuted.v); the correspondence harness runs the faithful
@@ -68,6 +150,19 @@ Theorem C05_faithful_model_coincides : forall fixed ac tab ops sched,
   run fixed true ac tab ops sched = run fixed false ac tab ops sched.
 Proof. exact faithful_run_eq. Qed.
 Print Assumptions C05_faithful_model_coincides.
+
+(* non-vacuity of the conflict-free theorems: three REST writers and two pushes (one refused by the generation
+   check, one refused as a conflict) race in conflict-free mode; the stored tree is the chain 1-1, 2-22, 3-33, 4-40 *)
+Example C05_nonvacuous_conflict_free :
+  let s := run true false false cf_tab cf_ops cf_sched in
+  all_finished s /\ all_live (d_tree (st s)) /\ length (commits s) = 3%nat /\ length (d_tree (st s)) = 4%nat /\
+  d_cur (st s) = Some (4, 40) /\ map w_out (ws s) =
+    [Some (OAck (1, 1) 1); Some (OAck (2, 22) 2); Some OConflict; Some (OAck (4, 40) 4); Some OFailed; Some OConflict].
+Proof.
+  vm_compute. split; [|split; [|repeat split]].
+  - intros x H. repeat (destruct H as [<-|H]; [discriminate|]). destruct H.
+  - intros r H. repeat (destruct H as [<-|H]; [reflexivity|]). destruct H.
+Qed.
 
 (* non-vacuity: a concrete racing schedule in which a writer loses two CAS races and is then rejected *)
 Example C05_nonvacuous :
